@@ -506,5 +506,6 @@ ADDENDA_R12 = {
 
 # Triage after round 12 (DESIGN.md section 8, round 12).
 ADDENDA_R12T = {
+    "C09": ("R09.15", "a comment in front of a directive does not hide it (found F-C09c, a known finding: `/* c */ #else` in a skipped group is missed)", "structural rule with a premise obligation on get(): the comment skipper restores the start-of-line flag"),
     "C07": ("R07.19", "a hexadecimal escape is read to its last hex digit (found F-C07k: '\\x041' recorded as 4; repaired fa4d8b5)", "structural rule: the digit-extension step sits in a loop conditioned on isxdigit()"),
 }
